@@ -509,7 +509,8 @@ order and exactly the written values, with cells equal to the fill read back as 
 theorem read_save (E : FloatExt) (hE : FloatSpec E) (dc : Char) (m : Str) (fs : List Field)
     (data : List (List Val)) (n : Nat)
     (hvalid : SchemaValid ⟨some [dc], some m, some fs⟩) (hh : HeaderOK E dc m fs)
-    (hn : 0 < n) (hrect : Rect n data) (hcols : Forall₂ (ColOK E m) fs data) :
+    (hn : 0 < n) (hrect : Rect n data) (hcols : Forall₂ (ColOK E m) fs data)
+    (hblank : dc = ' ' → m ≠ [] ∧ ∀ col ∈ data, ∀ d ∈ col, pyStr E d ≠ []) :
     ∃ txt, save E ⟨some [dc], some m, some fs⟩ data = .ok txt ∧
       read E txt = .ok (fieldNames fs, expectedTable E fs data) := by
   have hval := (validate_iff _).2 hvalid
@@ -560,6 +561,27 @@ theorem read_save (E : FloatExt) (hE : FloatSpec E) (dc : Char) (m : Str) (fs : 
     rcases hr with hr | ⟨row, hrow, rfl⟩
     · subst hr; exact hnamesOK
     · exact hrowFields row hrow
+  have hcsvBlank : ∀ r ∈ csvRows, ∀ f ∈ r, BlankOK dc f := by
+    intro r hr f hf hsp
+    obtain ⟨hmne, hcells⟩ := hblank hsp
+    simp only [csvRows, List.mem_cons, List.mem_map] at hr
+    rcases hr with hr | ⟨row, hrow, rfl⟩
+    · subst hr
+      simp only [fieldNames, List.mem_map] at hf
+      obtain ⟨fld, hfld, rfl⟩ := hf
+      obtain ⟨⟨n', hn', hid⟩, _⟩ := hfv fld hfld
+      rw [hn']
+      intro e; simp [e, isIdentifier] at hid
+    · -- a written cell: the missing marker or the text of a cell of the data
+      have hmem : ∀ w ∈ List.zipWith (written E m) fs row, w ≠ [] := by
+        intro w hw
+        obtain ⟨i, hi, rfl⟩ := List.getElem_of_mem hw
+        simp only [List.getElem_zipWith, written]
+        split
+        · exact hmne
+        · obtain ⟨col, hcol, hd'⟩ := zipStar_cells_mem data row hrow _ (List.getElem_mem (l := row) _)
+          exact hcells col hcol _ hd'
+      exact hmem f hf
   have hfile : fileLines E dc m fs data = fence :: headerLines E [dc] m fs ++ fence :: csvRows.map (writeRow dc) := by
     simp [fileLines, csvRows]
   -- no line breaks inside any line
@@ -594,7 +616,7 @@ theorem read_save (E : FloatExt) (hE : FloatSpec E) (dc : Char) (m : Str) (fs : 
     exact fieldValid_norm E f0 (hfv f0 hf0)
   -- csv reader
   have hread : readRows dc ((csvRows.map (writeRow dc)).map (· ++ ['\n'])) = some csvRows := by
-    have := readRows_writeRows dc hh.delim csvRows hcsvne hcsvOK
+    have := readRows_writeRows dc hh.delim csvRows hcsvne hcsvOK hcsvBlank
     simpa [List.map_map, Function.comp_def] using this
   -- transposition back to columns
   have hrowsEq : ∀ r ∈ (zipStar data).map (fun row => List.zipWith (written E m) fs row), r.length = fs.length := by
